@@ -1122,7 +1122,11 @@ class Printer:
         if k == "arr":
             return "[" + ", ".join(self.expr(x, naked_ok=False) for x in e[2]) + "]"
         if k == "struct":
-            return e[2] + " { " + ", ".join("%s: %s" % (m, self.expr(x, naked_ok=False)) for m, x in e[3]) + " }"
+            members = list(e[3])
+            if self.s.ws == "wild" or self.s.rng.random() < 0.3:
+                # member initialisers may be written in any order (layout, not meaning)
+                self.s.rng.shuffle(members)
+            return e[2] + " { " + ", ".join("%s: %s" % (m, self.expr(x, naked_ok=False)) for m, x in members) + " }"
         if k == "un":
             inner = self.expr(e[3], False, ctx="unary")
             if not self.is_primary(e[3]):
